@@ -61,6 +61,12 @@ def install_seams() -> None:
                 if env is not None:
                     env.log("state" if k == "connection_state" else "is_connected", conn=self._vf_id, value=v)
 
+        async def start_connection(self):
+            env = CURRENT
+            if env is not None:
+                env.log("conn_start_called", conn=self._vf_id)
+            return await super().start_connection()
+
         def _add_message_callback_without_remove(self, on_message, msg_types):
             env = CURRENT
             if env is not None and env.log_subscriptions:
@@ -100,13 +106,26 @@ class FakeSocket:
         self.idx = len(env.sockets)
         env.sockets.append(self)
 
+    def _fault(self, where: str) -> None:
+        """Scripted failure of a socket set-up call right after the TCP connect (env.sock_fault)."""
+        if self.env.sock_fault == where:
+            self.env.log("sock_fault", sock=self.idx, where=where)
+            raise OSError(107, "Transport endpoint is not connected")
+
     def setblocking(self, b):
-        pass
+        self._fault("setblocking")
 
     def setsockopt(self, *a):
+        if len(a) >= 2 and a[0] == socket.IPPROTO_TCP and a[1] == socket.TCP_NODELAY:
+            self._fault("nodelay")
+        if len(a) >= 2 and a[0] == socket.IPPROTO_TCP and a[1] == getattr(socket, "TCP_QUICKACK", -1):
+            self._fault("quickack")
+        if len(a) >= 2 and a[0] == socket.SOL_SOCKET and a[1] == socket.SO_RCVBUF:
+            self._fault("rcvbuf")
         self.opts.append(a)
 
     def getpeername(self):
+        self._fault("getpeername")
         return self.peer
 
     def getsockname(self):
@@ -291,6 +310,7 @@ class DeviceSession:
         self.noise_stage = 0  # 0 expect hello, 1 expect handshake, 2 data, -1 failed
         self.broken = False
         self._next_feed = 0.0  # absolute virtual time; keeps device->client order
+        self.inflight = 0  # chunks sent by the device that have not reached the client yet
         self.wire_errors: list[str] = []
 
     # ---- client -> device
@@ -398,7 +418,12 @@ class DeviceSession:
         tr = self.transport
         chunks = list(wire.iter_cut(data, sorted(c for c in (cuts or []) if 0 <= c <= len(data))))
         for ch in chunks:
-            loop.sim_at(when - START, tr.feed, ch)
+            self.inflight += 1
+            loop.sim_at(when - START, self._deliver, tr, ch)
+
+    def _deliver(self, tr, ch: bytes) -> None:
+        self.inflight -= 1
+        tr.feed(ch)
 
     def send(self, *msgs, delay: float | None = None, cuts: list[int] | None = None) -> None:
         self.send_raw(b"".join(self.encode(m) for m in msgs), delay, cuts)
@@ -523,6 +548,7 @@ class Env:
         self.cancelled_by_harness: set[str] = set()
         self.create_connection_yields = 0
         self.log_subscriptions = False
+        self.sock_fault: str | None = None
 
     # ------------------------------------------------------------ trace
     def log(self, kind: str, **kw) -> int:
